@@ -47,6 +47,10 @@ pub struct Case {
     /// operation is a read
     #[serde(default)]
     pub eintr_at: Option<usize>,
+    /// what the client announced in its handshake response: (max_packet_size, character set /
+    /// collation).  Text reaches the shim verbatim whatever the client calls its character set.
+    #[serde(default)]
+    pub announced: Option<(u32, u8)>,
 }
 
 fn gen_plain_text(g: &mut G<'_>) -> String {
@@ -300,7 +304,7 @@ impl Prop for C02 {
         "C02"
     }
     fn rule(&self) -> String {
-        "cases = sequences of 0-40 commands over {QUERY, PREPARE, EXECUTE, SEND_LONG_DATA, CLOSE, INIT_DB, FIELD_LIST, PING, QUIT}. Query text comes from classes kept apart so the oracle never demands more than the property says: (A) built-in as the property spells them (`SELECT @@`/`select @@` + arbitrary tail; `USE `/`use ` + optional blanks + bare or back-quoted name (quoted names may contain spaces and ';') + optional ';' + optional trailing whitespace); (B) certainly not built-in (arbitrary UTF-8 incl. NUL and multi-byte, up to 20 KB, and look-alikes such as `SELECT @x`, `SELEC @@`, `USER()`, `USEFUL`, `use_db`); (C) grey spellings (`SeLeCt @@x`, `select@@x`, `USE\\tdb`, leading blanks) that may go either way; plus query / prepare / init payloads that are not UTF-8. Statement ids are arbitrary u32 values chosen by the shim.  The client stream is delivered under a generated read chunking, and in 1 of 4 cases one read is interrupted once with ErrorKind::Interrupted (the library may report or retry it; either way the shim must only see what the client sent). Oracle: executable model mapping the command list to the expected callback log (whole-log equality, so extra, missing or reordered callbacks all show). Non-trivial = >= 3 distinct command kinds, or a class-A USE, a look-alike, a grey or a non-UTF-8 item.".into()
+        "cases = sequences of 0-40 commands over {QUERY, PREPARE, EXECUTE, SEND_LONG_DATA, CLOSE, INIT_DB, FIELD_LIST, PING, QUIT}. Query text comes from classes kept apart so the oracle never demands more than the property says: (A) built-in as the property spells them (`SELECT @@`/`select @@` + arbitrary tail; `USE `/`use ` + optional blanks + bare or back-quoted name (quoted names may contain spaces and ';') + optional ';' + optional trailing whitespace); (B) certainly not built-in (arbitrary UTF-8 incl. NUL and multi-byte, up to 20 KB, and look-alikes such as `SELECT @x`, `SELEC @@`, `USER()`, `USEFUL`, `use_db`); (C) grey spellings (`SeLeCt @@x`, `select@@x`, `USE\\tdb`, leading blanks) that may go either way; plus query / prepare / init payloads that are not UTF-8. Statement ids are arbitrary u32 values chosen by the shim.  COM_INIT_DB names include ones with back-quotes, ';' and blanks at their edges (they are the name); the handshake response announces a generated character set (latin1, utf8, utf8mb4, binary, random) and max_packet_size, which must not change what the shim is shown.  The client stream is delivered under a generated read chunking, and in 1 of 4 cases one read is interrupted once with ErrorKind::Interrupted (the library may report or retry it; either way the shim must only see what the client sent). Oracle: executable model mapping the command list to the expected callback log (whole-log equality, so extra, missing or reordered callbacks all show). Non-trivial = >= 3 distinct command kinds, or a class-A USE, a look-alike, a grey or a non-UTF-8 item.".into()
     }
     fn assumptions(&self) -> Vec<String> {
         vec!["grey spellings (class C) are only required to arrive verbatim if they reach on_query and bare if they reach on_init".into()]
@@ -358,7 +362,14 @@ impl Prop for C02 {
                         items.push(Item::Close { id });
                     }
                 }
-                5 => items.push(Item::InitDb { name: if g.chance(1, 4) { gen_string(g, false).into_bytes() } else { gen_name(g).into_bytes() } }),
+                5 => items.push(Item::InitDb {
+                    // COM_INIT_DB carries the bare name: whatever it contains is the name
+                    name: match g.weighted(&[4, 2, 2]) {
+                        0 => gen_name(g).into_bytes(),
+                        1 => gen_string(g, false).into_bytes(),
+                        _ => g.pick(&["`quoted`", "reports;", " padded ", "a;b", ";", "`", "x`;", "\tt", "USE db", "use `d`;", "d ", " d"]).as_bytes().to_vec(),
+                    },
+                }),
                 6 => items.push(Item::FieldList { arg: gen_bytes(g, false) }),
                 7 => items.push(Item::Ping),
                 _ => items.push(gen_query_item(g)),
@@ -384,7 +395,8 @@ impl Prop for C02 {
             _ => (0..g.usize_in(1, 4)).map(|_| *g.pick(&[1usize, 2, 4, 9, 17, 64, 4096])).collect(),
         };
         let eintr_at = if g.chance(1, 4) { Some(g.usize_in(1, 80)) } else { None };
-        Case { items, chunks, eintr_at }
+        let announced = if g.chance(2, 3) { Some(gen_client_announcements(g)) } else { None };
+        Case { items, chunks, eintr_at, announced }
     }
     fn fixed(&self, tier: Tier) -> Vec<Case> {
         // arbitrary text includes long text: a query of several wire packets between ordinary
@@ -406,6 +418,7 @@ impl Prop for C02 {
                     ],
                     chunks: vec![chunk],
                     eintr_at: None,
+                    announced: None,
                 });
                 if tier == Tier::Quick {
                     break;
@@ -465,6 +478,13 @@ impl Prop for C02 {
         }
         let mut conv = Conversation::new(cmds, vec![]);
         conv.auto_ids = Some(ids);
+        if let (Some((mp, cs)), HsKind::V41 { max_packet, charset, .. }) = (case.announced, &mut conv.hs.kind) {
+            *max_packet = mp;
+            *charset = cs;
+            if must_err && cs != 0x21 {
+                ex.class("non-utf8-text-from-a-client-announcing-another-character-set");
+            }
+        }
         if !case.chunks.is_empty() {
             conv.sched.sizes = case.chunks.iter().map(|&c| c.max(1)).collect();
         }
